@@ -84,12 +84,7 @@ func H_C20_reconfigure() {
 		}
 		// directory changes between reconfigurations
 		if nondetChoice("change"+s, 2) == 1 && m.dirs[0].state == vDirOK {
-			f := m.dirs[0].files[0]
-			if f.state == vFileValid {
-				f.state = vFileAbsent
-			} else {
-				f.state = vFileValid
-			}
+			vToggleFile(m.dirs[0], m.dirs[0].files[0])
 		}
 		vShortage = nondetChoice("shortage"+s, 2) == 1
 		_ = c.Configure(opts...)
@@ -105,18 +100,25 @@ func H_C20_reconfigure() {
 	// a later change of the directories: both caches must keep answering alike; with no watcher (shortage)
 	// every query is answered from the current directory contents
 	if m.dirs[0].state == vDirOK {
-		x := m.dirs[0].files[1]
-		if x.state == vFileValid {
-			x.state = vFileAbsent
-		} else {
-			x.state = vFileValid
-		}
+		vToggleFile(m.dirs[0], m.dirs[0].files[1])
 	}
 	vCompareCaches(c, f, "after-later-change")
+	vassert("every-watcher-has-a-reader-goroutine", vspawned() >= vMadeWatchers)
 	if auto && vShortage {
 		vreach("shortage")
 		g := newCache(WithSpecDirs(dirs...), WithAutoRefresh(false))
 		vassert("without-watcher-queries-see-current-contents", vSameStrs(c.ListDevices(), g.ListDevices()))
+		// the shortage ends; the directories keep changing: every query is still answered from the current contents
+		// (a cache without a working event reader must not start trusting a watcher nobody reads)
+		vShortage = false
+		for round := 0; round < 2; round++ {
+			if m.dirs[0].state == vDirOK {
+				vToggleFile(m.dirs[0], m.dirs[0].files[round%2])
+			}
+			truth := newCache(WithSpecDirs(dirs...), WithAutoRefresh(false))
+			vassert("after-the-shortage-queries-still-see-current-contents", vSameStrs(c.ListDevices(), truth.ListDevices()))
+			vassert("every-watcher-has-a-reader-goroutine", vspawned() >= vMadeWatchers)
+		}
 	}
 }
 
